@@ -102,6 +102,8 @@ structure Chain where
 
 inductive AddRes where
   | ok | exists_ | noParent | preMismatch
+  /-- `save` returned the error of its batch write (only under an injected write fault) -/
+  | writeErr
   deriving DecidableEq, Repr
 
 def mirrorInsert (m : List Bytes) (id : Bytes) : List Bytes := if id ∈ m then m else id :: m
@@ -116,6 +118,12 @@ def saveWrites (count : Nat) (g : Group) : List Write :=
     .put curKey (.ref g.id),
     .put (hkey count) (.ref g.id),
     .put cntKey (.cnt ((count + 1) % u64)) ]
+
+/-- The PHYSICAL writes of `save` (after "fix: groupChain.save writes gcurrent, the height slot and
+    gcount in one atomic batch"): `Put(id, json)`, then one `NewBatch().Write()` with the three
+    index entries. A crash point or a write fault falls between / on these two. -/
+def saveGroups (count : Nat) (g : Group) : List (List Write) :=
+  [(saveWrites count g).take 1, (saveWrites count g).drop 1]
 
 def save (c : Chain) (g : Group) : Chain :=
   { disk := applyWrites c.disk (saveWrites c.count g),
@@ -262,9 +270,9 @@ inductive Run where
   deriving DecidableEq, Repr, Inhabited
 
 def saveB (c : Chain) (g : Group) (k : Nat) : Run :=
-  let ws := saveWrites c.count g
-  if k < ws.length then .crashed (applyPrefix k c.disk ws) c.mirror
-  else .done (save c g) (k - ws.length)
+  let gs := saveGroups c.count g
+  if k < gs.length then .crashed (applyWrites c.disk (gs.take k).flatten) c.mirror
+  else .done (save c g) (k - gs.length)
 
 def addB (c : Chain) (g : Group) (k : Nat) : AddRes × Run :=
   match addCheck c g with
@@ -324,22 +332,26 @@ def firstBelow (c : Chain) (x : Nat) : Option Group := firstBelowWalk c.disk x (
 
 /-! ### Write faults: one `Put`/`Delete` returns an error instead of being performed
 
-`save` and `remove` ignore the error value of every store call, so the operation carries on:
-the remaining writes are performed, the in-memory mirror and sqlite are updated, and the caller
-is told nothing. `j` = index (from 0) of the failing write among the writes still to come;
+`remove` ignores the error value of every store call, and `save` that of its first `Put`, so the
+operation carries on: the remaining writes are performed, the in-memory mirror and sqlite are
+updated, and the caller is told nothing. Only a failed batch write of `save` is returned. `j` = index (from 0) of the failing write among the writes still to come;
 `none` = no fault (left). -/
 
-def saveF (c : Chain) (g : Group) (j : Option Nat) : Chain × Option Nat :=
+/-- `save` with its `j`-th physical write failing. `j = 0`: `Put(id, json)` fails, its error is
+    ignored, the batch is written and memory advances (the index then names a group that is not
+    stored). `j = 1`: the batch fails, `save` returns the error BEFORE touching `count`/`lastGroup`
+    and before the sqlite insert; only the (unreferenced) JSON is in the store. Result: the chain,
+    whether the error surfaced, the fault index left. -/
+def saveF (c : Chain) (g : Group) (j : Option Nat) : Chain × Bool × Option Nat :=
   match j with
-  | some i =>
-    if i < 4 then
-      ({ save c g with disk := applyWrites c.disk ((saveWrites c.count g).eraseIdx i) }, none)
-    else (save c g, some (i - 4))
-  | none => (save c g, none)
+  | some 0 => ({ save c g with disk := applyWrites c.disk ((saveWrites c.count g).drop 1) }, false, none)
+  | some 1 => ({ c with disk := applyWrites c.disk ((saveWrites c.count g).take 1) }, true, none)
+  | some (i + 2) => (save c g, false, some i)
+  | none => (save c g, false, none)
 
 def addGroupF (c : Chain) (g : Group) (j : Option Nat) : AddRes × Chain :=
   match addCheck c g with
-  | .ok => (.ok, (saveF c g j).1)
+  | .ok => let r := saveF c g j; (if r.2.1 then .writeErr else .ok, r.1)
   | r => (r, c)
 
 def removeF (c : Chain) (g : Group) (j : Option Nat) : Bool × Chain × Option Nat :=
